@@ -910,7 +910,10 @@ def neutron_scattering(compound, density=None,
     is_energy_dependent = False
     for element, quantity in compound.atoms.items():
         # TODO: use NaN rather than None
-        if not element.neutron.has_sld():
+        # Note: only the scattering data is needed; the density of the
+        # compound is given, so it does not matter whether the bulk density
+        # of the element is known (e.g., Ra has b_c but no density).
+        if element.neutron.b_c is None:
             return None, None, None
         molar_mass += element.mass*quantity
         num_atoms += quantity
